@@ -138,7 +138,19 @@ fn print_ranges(tag: &str, v: &[(u64, u64)]) {
 }
 
 fn do_map(args: &[String]) -> i32 {
-    let path = &args[0];
+    // several files are mapped one after the other by this one thread: state that libfs keeps between calls shows up here
+    let mut rc = 0;
+    for path in args {
+        println!("FILE {}", path);
+        let r = map_one(path);
+        if r != 0 {
+            rc = r;
+        }
+    }
+    rc
+}
+
+fn map_one(path: &String) -> i32 {
     let f = match File::open(path) {
         Ok(f) => f,
         Err(e) => {
